@@ -276,6 +276,7 @@ pub fn valid_header_with(rng: &mut Rng, buf: &mut Vec<u8>, vc: u8, fp: u8) -> V2
     buf.extend_from_slice(&address_block(rng, fam));
     // budget for the rest of the payload
     let budget = match rng.below(20) {
+        0 | 1 if crate::engine::small() && rng.chance(3, 4) => rng.below(600) as usize,
         0 => 65535 - size,
         1 => rng.below((65535 - size) as u64 + 1) as usize,
         2 => 0,
@@ -511,6 +512,7 @@ pub fn tlv_case(stream_name: &str, idx: u64, seed: u64) -> Vec<u8> {
         }
         "tlv-rand" => {
             let n = match rng.below(40) {
+                0 if crate::engine::small() => rng.below(400),
                 0 => rng.below(70001),
                 1..=4 => rng.below(2000),
                 _ => rng.below(64),
